@@ -1,8 +1,425 @@
 import Karp.Driver.Proto
+import Karp.Driver.ReqJson
+import Karp.Model.Hash
+import Karp.Spec.DriftSpec
+import Karp.Model.Drift
+import Karp.Driver.ScenarioJson
+import Karp.Model.Template
 
 namespace Karp.Driver.C15
-open Lean Karp.Driver
+open Lean Karp.Driver Karp.Hash Karp.Spec.DriftSpec
 
-def handle : Handler := fun op _ _ => .error s!"unknown op {op}"
+/-! ### JSON decoding -/
+
+def optOf (f : Json → Except String α) (j : Json) (k : String) : Except String (Option α) :=
+  match fldOpt j k with
+  | none => pure none
+  | some v => do pure (some (← f v))
+
+def parseKV (j : Json) : Except String (String × String) := do
+  match ← asArr j with
+  | [a, b] => pure (← asStr a, ← asStr b)
+  | _ => throw "key/value pair expected"
+
+def parseTaint (j : Json) : Except String Taint := do
+  let ta ← intO j "timeAdded"
+  let tz ← boolD j "timeZero" false
+  pure { key := ← strF j "key", value := ← strF j "value", effect := ← strF j "effect",
+         timeAdded := match ta with | some s => some (some s) | none => if tz then some none else none }
+
+def parseSel (j : Json) : Except String Karp.Req.Sel := do
+  pure { key := ← strF j "key", op := ReqJson.parseOp (← strF j "op"), values := ← strList (← fld j "values"),
+         minValues := ← intO j "minValues" }
+
+def parseRef (j : Json) : Except String NodeClassRef := do
+  pure { kind := ← strF j "kind", name := ← strF j "name", group := ← strF j "group" }
+
+def parseTemplate (j : Json) : Except String Template := do
+  pure { labels := ← optOf (listOf parseKV) j "labels", annotations := ← optOf (listOf parseKV) j "annotations",
+         taints := ← optOf (listOf parseTaint) j "taints", startupTaints := ← optOf (listOf parseTaint) j "startupTaints",
+         requirements := ← optOf (listOf parseSel) j "requirements", nodeClassRef := ← optOf parseRef j "nodeClassRef",
+         tgp := ← intO j "tgp", expireAfter := ← intO j "expireAfter", expireAfterRaw := ← strO j "expireAfterRaw" }
+
+/-- the fields outside the template are decoded only far enough to show that the model ignores them -/
+def parsePool (j : Json) : Except String Pool := do
+  let o ← fld j "outside"
+  pure { template := ← parseTemplate (← fld j "template"),
+         outside := { weight := ← intO o "weight", consolidateAfter := ← intO o "consolidateAfter",
+                      consolidationPolicy := ← strF o "consolidationPolicy", replicas := ← intO o "replicas" } }
+
+/-! ### c15.hash -/
+
+def hashOp (inp impl : Json) : Except String Resp := do
+  let a ← parsePool (← fld inp "a")
+  let b ← parsePool (← fld inp "b")
+  let ha := a.hashString
+  let hb := b.hashString
+  let model := jObj [("ha", jStr ha), ("hb", jStr hb), ("equal", jBool (ha == hb)), ("stable", jBool true)]
+  let (spec, why) ← match fldOpt impl "equal", fldOpt impl "stable" with
+    | some e, some s => do
+      let equal ← asBool e
+      let stable ← asBool s
+      if !stable then pure (some false, "hashing the same NodePool twice gave different values (map iteration order leaks)")
+      else match fingerprintVerdict a b with
+        | .mustEqual => pure (some equal, if equal then "" else "only the order of lists/maps and non-drifting fields differ, but the hash changed")
+        | .mustDiffer => pure (some (!equal), if equal then "a drift-relevant template field differs, but the hash is unchanged" else "")
+        | .unspecified => pure (none, "")
+    | _, _ => pure (some false, "implementation produced no hash (panic?)")
+  pure { model := some model, spec := spec, why := why }
+
+/-! ### c15.drift -/
+
+open Karp.Drift in
+def parseClaim (j : Json) : Except String Claim := do
+  pure { name := ← strF j "name", labels := ← listOf parseKV (← fld j "labels"),
+         ann := { hash := ← strO j "hash", version := ← strO j "version" },
+         launched := ← boolF j "launched", drifted := ← strO j "drifted", deleting := ← boolF j "deleting",
+         managed := ← boolF j "managed", createdAt := -((← intF j "ageMin") * 60000000000) }
+
+structure OffJ where
+  zone : String
+  ct : String
+  rid : String
+
+def parseOff (j : Json) : Except String OffJ := do
+  pure { zone := ← strF j "zone", ct := ← strF j "capacityType", rid := ← strF j "reservationID" }
+
+def inReq (k : String) (vs : List String) : Karp.Req.Req := { key := k, complement := false, values := vs }
+
+/-- the offering requirements as the harness builds them: zone, capacity type, reservation id (DoesNotExist unless reserved) -/
+def offReqs (resLabel : String) (o : OffJ) : Karp.Req.Reqs :=
+  [(Karp.Spec.DriftSpec.zoneKey, inReq Karp.Spec.DriftSpec.zoneKey [o.zone]),
+   (Karp.Drift.capacityTypeKey, inReq Karp.Drift.capacityTypeKey [o.ct]),
+   (resLabel, if o.ct == Karp.Gen.Labels.capacityTypeReserved then inReq resLabel [o.rid] else inReq resLabel [])]
+
+structure ProvJ where
+  its : List (String × List OffJ)
+  itErr : Bool
+  drift : String
+  driftErr : Bool
+
+def parseProv (j : Json) : Except String ProvJ := do
+  let its ← (← arrF j "its").mapM (fun i => do pure (← strF i "name", ← listOf parseOff (← fld i "offerings")))
+  pure { its, itErr := ← boolF j "itErr", drift := ← strF j "drift", driftErr := ← boolF j "driftErr" }
+
+def ProvJ.toModel (resLabel : String) (p : ProvJ) : Karp.Drift.Prov :=
+  { its := p.its.map (fun (n, ofs) => { name := n, offerings := ofs.map (offReqs resLabel) }),
+    itErr := p.itErr, drift := p.drift, driftErr := p.driftErr }
+
+/-- a step together with the provider description the spec reads -/
+def parseStep (resLabel : String) (j : Json) : Except String (Karp.Drift.Step × Option ProvJ) := do
+  let k ← strF j "k"
+  let claim := (← strO j "claim").getD ""
+  match k with
+  | "editPool" => pure (.editPool (← parsePool (← fld j "pool")), none)
+  | "deletePool" => pure (.deletePool, none)
+  | "hashctl" => pure (.hashctl, none)
+  | "label" => pure (.setLabel claim (← strF j "key") (← strO j "value"), none)
+  | "ann" => pure (.setAnn (if claim == "" then none else some claim) ((← strF j "key") == "hash") (← strO j "value"), none)
+  | "launched" => pure (.setLaunched claim (← boolD j "launched" false), none)
+  | "prov" => do
+    let p ← parseProv (← fld j "prov")
+    pure (.setProv (p.toModel resLabel), some p)
+  | "advance" => pure (.advance ((← intF j "min") * 60000000000), none)
+  | "reconcile" => pure (.reconcile claim, none)
+  | _ => throw s!"bad step {k}"
+
+def sortKV (l : List (String × String)) : List (String × String) := (l.toArray.qsort (fun a b => a.1 < b.1)).toList
+
+def snapJson (s : Karp.Drift.St) (err : Bool) : Json :=
+  jObj [("poolPresent", jBool s.pool.present),
+        ("poolHash", if s.pool.present then jOptStr s.pool.ann.hash else Json.null),
+        ("poolVersion", if s.pool.present then jOptStr s.pool.ann.version else Json.null),
+        ("hashNow", jStr (if s.pool.present then s.pool.pool.hashString else "")),
+        ("claims", jArr (s.claims.map (fun c => jObj [("name", jStr c.name),
+            ("labels", jArr ((sortKV c.labels).map (fun kv => jArr [jStr kv.1, jStr kv.2]))),
+            ("hash", jOptStr c.ann.hash), ("version", jOptStr c.ann.version), ("drifted", jOptStr c.drifted)]))),
+        ("err", jBool err)]
+
+structure ClaimObs where
+  name : String
+  labels : List (String × String)
+  hash : Option String
+  version : Option String
+  drifted : Option String
+
+structure SnapObs where
+  poolPresent : Bool
+  poolHash : Option String
+  poolVersion : Option String
+  hashNow : String
+  claims : List ClaimObs
+  err : Bool
+
+def parseSnap (j : Json) : Except String SnapObs := do
+  let claims ← (← arrF j "claims").mapM (fun c => do
+    pure ({ name := ← strF c "name", labels := ← listOf parseKV (← fld c "labels"), hash := ← strO c "hash",
+            version := ← strO c "version", drifted := ← strO c "drifted" } : ClaimObs))
+  pure { poolPresent := ← boolF j "poolPresent", poolHash := ← strO j "poolHash", poolVersion := ← strO j "poolVersion",
+         hashNow := ← strF j "hashNow", claims, err := ← boolF j "err" }
+
+open Karp.Spec.DriftSpec in
+/-- the specification evaluated on one observed step: `env` is the model state BEFORE the step (only its environment
+    part is read: the NodePool spec, Launched, managed/deleting, the provider description), `pre`/`post` are the
+    implementation's snapshots around the step -/
+def judgeStep (i : Nat) (st : Karp.Drift.Step) (env : Karp.Drift.St) (prov : ProvJ) (resLabel : String)
+    (pre post : SnapObs) : Option (String × String) :=
+  match st with
+  | .reconcile n =>
+    match env.claims.find? (·.name == n), pre.claims.find? (·.name == n), post.claims.find? (·.name == n) with
+    | some ec, some pc, some qc =>
+      let applicable := ec.managed && !ec.deleting && pre.poolPresent &&
+        pc.labels.lookup Karp.Drift.nodePoolKey == some env.pool.name
+      if !applicable || post.err then none else
+      let sels := env.pool.pool.template.requirements.getD []
+      let f : Facts := { launched := ec.launched, poolHash := pre.poolHash, poolVersion := pre.poolVersion,
+                         claimHash := pc.hash, claimVersion := pc.version, sels := sels, labels := pc.labels,
+                         instanceGone := instanceGone (prov.its.map (fun (n, ofs) => (n, ofs.map (fun o =>
+                            ({ zone := o.zone, capacityType := o.ct, reservationID := o.rid } : OfferingS))))) pc.labels resLabel,
+                         providerDrift := prov.drift != "" }
+      if mustBeDrifted f && qc.drifted.isNone then
+        let cls := if hashDiffersUnderSameVersion f.poolHash f.poolVersion f.claimHash f.claimVersion then "static-drift-missed"
+                   else missClass sels pc.labels
+        some (s!"step {i}: NodeClaim {n} is launched and " ++
+          (if cls == "static-drift-missed" then "its hash differs from the NodePool's under the same hash version"
+           else "its labels do not satisfy the NodePool's requirements") ++ s!", but it is not reported Drifted [{cls}]", cls)
+      else if qc.drifted.isSome && !mayBeDrifted f then
+        some (s!"step {i}: NodeClaim {n} is reported Drifted ({qc.drifted.getD ""}) although " ++
+          (if !f.launched then "it is not launched" else "its hash matches (or is not comparable), its labels satisfy the NodePool's requirements, its instance type is offered and the provider reports no drift"),
+          "self-inflicted-drift")
+      else none
+    | _, _, _ => some (s!"step {i}: NodeClaim {n} missing from a snapshot", "harness")
+  | .hashctl =>
+    if !(pre.poolPresent && env.poolManaged) || post.err then none else
+    if post.poolHash != some post.hashNow || post.poolVersion != some Karp.Drift.currentVersion then
+      some (s!"step {i}: after the hash controller ran, the NodePool does not carry its current hash and hash version", "hash-annotation")
+    else
+      let bad := env.claims.filterMap (fun ec =>
+        match pre.claims.find? (·.name == ec.name), post.claims.find? (·.name == ec.name) with
+        | some pc, some qc =>
+          let ofPool := ec.managed && pc.labels.lookup Karp.Drift.nodePoolKey == some env.pool.name
+          let migrate := ofPool && pre.poolVersion != some Karp.Drift.currentVersion && pc.version != some Karp.Drift.currentVersion
+          if migrate then
+            if qc.version != some Karp.Drift.currentVersion then some (ec.name, "hash version not migrated")
+            else if pc.drifted.isNone && qc.hash != some post.hashNow then some (ec.name, "not drifted before the migration, but its hash was not re-stamped: it would be reported drifted by the hash-version bump alone")
+            else if pc.drifted.isSome && qc.hash != pc.hash then some (ec.name, "already drifted, but its hash was overwritten")
+            else none
+          else if qc.hash != pc.hash || qc.version != pc.version then some (ec.name, "annotations changed although no migration applies")
+          else none
+        | _, _ => some (ec.name, "missing from a snapshot"))
+      match bad with
+      | [] => none
+      | (n, why) :: _ => some (s!"step {i}: hash controller, NodeClaim {n}: {why}", "hash-migration")
+  | _ => none
+
+def driftOp (inp impl : Json) : Except String Resp := do
+  let resLabel ← strF inp "reservationLabel"
+  let pool ← parsePool (← fld inp "pool")
+  let poolHash := match ← strO inp "poolHash" with
+    | some "$hash" => some pool.hashString
+    | h => h
+  let poolAnn : Karp.Drift.Ann := { hash := poolHash, version := ← strO inp "poolVersion" }
+  let claims ← (← arrF inp "claims").mapM parseClaim
+  let claims := claims.map (fun c => if c.ann.hash == some "$pool" then { c with ann := { c.ann with hash := poolAnn.hash } } else c)
+  let prov0 ← parseProv (← fld inp "prov")
+  let nc ← strList (← fld inp "nodeClass")
+  let s0 : Karp.Drift.St := {
+    pool := { name := ← strF inp "poolName", pool := pool, ann := poolAnn },
+    claims := claims, prov := prov0.toModel resLabel,
+    wellKnown := ← strList (← fld inp "wellKnown"), reservedLabels := ← strList (← fld inp "reservedLabels"),
+    nodeClass := (nc.getD 0 "", nc.getD 1 "") }
+  let steps ← (← arrF inp "steps").mapM (parseStep resLabel)
+  match Karp.Drift.run s0 (steps.map (·.1)) with
+  | .error _ =>
+    -- a requirement with a comparison operator and no operand: the real code indexes values[0]
+    pure { model := some (jObj [("panic", jStr "index-out-of-range")]), spec := none }
+  | .ok states =>
+    let model := jObj [("snaps", jArr (snapJson s0 false :: states.map (fun (s, e) => snapJson s e)))]
+    -- the specification on what the implementation did
+    match fldOpt impl "snaps" with
+    | none => pure { model := some model, spec := some false, why := "implementation produced no snapshots (panic?)" }
+    | some sj => do
+      let obs ← (← asArr sj).mapM parseSnap
+      if obs.length != steps.length + 1 then
+        return { model := some model, spec := some false, why := "wrong number of snapshots" }
+      -- environment before each step: s0 :: states; provider description before each step
+      let envs := s0 :: states.map (·.1)
+      let rec provs (cur : ProvJ) : List (Karp.Drift.Step × Option ProvJ) → List ProvJ
+        | [] => []
+        | (_, p) :: rest => cur :: provs (p.getD cur) rest
+      let provBefore := provs prov0 steps
+      let rec go (i : Nat) (sts : List (Karp.Drift.Step × Option ProvJ)) (envs : List Karp.Drift.St) (pvs : List ProvJ)
+          (obs : List SnapObs) : Option (String × String) :=
+        match sts, envs, pvs, obs with
+        | (st, _) :: sts', env :: envs', pv :: pvs', pre :: post :: obs' =>
+          match judgeStep i st env pv resLabel pre post with
+          | some v => some v
+          | none => go (i + 1) sts' envs' pvs' (post :: obs')
+        | _, _, _, _ => none
+      match go 0 steps envs provBefore obs with
+      | none => pure { model := some model, spec := some true }
+      | some (why, cls) =>
+        pure { model := some model, spec := some false, why := why, extra := some (jObj [("signature", jStr cls)]) }
+
+/-! ### c15.selfdrift -/
+
+structure LaunchObs where
+  claim : Nat
+  pool : String
+  option : String
+  labels : List (String × String)
+  hash : Option String
+  version : Option String
+  launched : Bool
+  fresh : Option String
+  later : Option String
+  afterEdit : Option String
+  err : String
+  /-- `spec.requirements` of the NodeClaim as written by `ToNodeClaim` -/
+  reqs : List Karp.Req.Sel
+
+def parseLaunch (j : Json) : Except String LaunchObs := do
+  pure { claim := ← natF j "claim", pool := ← strF j "pool", option := ← strF j "option",
+         labels := ← (match fldOpt j "labels" with | none => pure [] | some v => listOf parseKV v),
+         hash := ← strO j "hash", version := ← strO j "version", launched := ← boolD j "launched" false,
+         fresh := ← strO j "fresh", later := ← strO j "later", afterEdit := ← strO j "afterEdit",
+         err := (← strO j "err").getD "",
+         reqs := ← (match fldOpt j "reqs" with | none => pure [] | some v => listOf parseSel v) }
+
+structure PoolObs where
+  name : String
+  hash : Option String
+  version : Option String
+  hashAfter : Option String
+  versionAfter : Option String
+
+def parsePoolObs (j : Json) : Except String PoolObs := do
+  pure { name := ← strF j "name", hash := ← strO j "hash", version := ← strO j "version",
+         hashAfter := ← strO j "hashAfter", versionAfter := ← strO j "versionAfter" }
+
+def selOfMin (e : Karp.Scn.MinExpr) : Karp.Req.Sel := { key := e.key, op := e.op, values := e.vals, minValues := e.minValues }
+
+open Karp.Spec.DriftSpec in
+/-- why a fresh NodeClaim's labels fail its own NodePool's requirements (the recorded classes):
+    * the template's own labels contradict the template's requirements;
+    * a custom key the NodePool needs present has no label, and
+      - the NodeClaim's own written requirement for the key still needs the label, but `Requirement.Any()` has no
+        canonical integer left to pick (the model's relation for `Any()` allows the empty outcome): unresolvable;
+      - the NodeClaim's own written requirement for the key tolerates absence (`DoesNotExist` / only `NotIn`): the
+        scheduler narrowed the NodePool's requirement into one that lost "the label must be present" (the C01
+        finding presence-lost-with-notin: a pod with `k NotIn [..]` and a pod with `k DoesNotExist` share the claim). -/
+def selfDriftClass (pool : Karp.Scn.Pool) (sels : List Karp.Req.Sel) (labels : List (String × String))
+    (claimReqs : List Karp.Req.Sel) : String :=
+  if pool.labels.any (fun kv => sels.any (fun s => s.key == kv.1 && !Karp.Spec.K8s.k8sMatch s.op s.values (some kv.2))) then
+    "template-label-contradicts-requirement"
+  else
+    let missing := (sels.filter (fun s => (labels.lookup s.key).isNone && needsPresence s && Karp.Template.customKey s.key)).map (·.key) |>.eraseDups
+    let violatedPresent := sels.any (fun s => (labels.lookup s.key).isSome && !Karp.Spec.K8s.k8sMatch s.op s.values (labels.lookup s.key))
+    let written (k : String) := claimReqs.filter (·.key == k)
+    let unresolvable (k : String) : Bool :=
+      (written k).any needsPresence &&
+      (match Karp.Req.fromSelectors (written k) with
+       | .ok (some r) => r.anyAllowed ""
+       | _ => false)
+    let presenceLost (k : String) : Bool := !(written k).isEmpty && !(written k).any needsPresence
+    if violatedPresent || missing.isEmpty then "self-drift"
+    else if missing.all unresolvable then "custom-label-unresolvable"
+    else if missing.all (fun k => unresolvable k || presenceLost k) then "pool-presence-lost-in-scheduling"
+    else "self-drift"
+
+def hashedKinds : List String := ["label", "annotation", "taint", "startupTaint", "tgp", "expireAfter"]
+
+open Karp.Spec.DriftSpec in
+def selfOp (inp impl : Json) : Except String Resp := do
+  let scn ← ScenarioJson.scenario (← fld inp "scn")
+  let resLabel ← strF inp "reservationLabel"
+  let wellKnown ← strList (← fld inp "wellKnown")
+  let reservedLabels ← strList (← fld inp "reservedLabels")
+  let edit := fldOpt inp "edit"
+  let editPool ← match edit with | some e => strF e "pool" | none => pure ""
+  let editKind ← match edit with | some e => strF e "kind" | none => pure ""
+  let editReqs ← match edit with
+    | some e => (match fldOpt e "reqs" with | some r => do pure (some (← listOf ScenarioJson.minExpr r)) | none => pure none)
+    | none => pure none
+  if (fldOpt impl "err").isSome then
+    return { allowed := some true, spec := none }
+  let pools ← (← arrF impl "pools").mapM parsePoolObs
+  let launches ← (← arrF impl "launches").mapM parseLaunch
+  -- the provider's catalogue: every offering is listed, available or not
+  let its : List (String × List OfferingS) := scn.its.map (fun it => (it.name, it.offerings.map (fun o =>
+    ({ zone := o.zone, capacityType := o.ct, reservationID := o.resID } : OfferingS))))
+  let modelITs : List Karp.Drift.ITD := scn.its.map (fun it => { name := it.name, offerings := it.offerings.map (fun o =>
+    offReqs resLabel { zone := o.zone, ct := o.ct, rid := o.resID }) })
+  let mut verdict : Option (String × String) := none
+  let mut modelBad : Option String := none
+  for l in launches do
+    if l.err != "" then
+      if l.err != "no-permitted-option" && verdict.isNone then
+        verdict := some (s!"claim {l.claim} option {l.option}: {l.err}", "error")
+      continue
+    match scn.pools.find? (·.name == l.pool), pools.find? (·.name == l.pool) with
+    | some pool, some po =>
+      let sels := pool.reqs.map selOfMin
+      let selsAfter := if l.pool == editPool && editKind == "reqs" then (editReqs.getD pool.reqs).map selOfMin else sels
+      -- model verdicts on the observed labels / annotations
+      let mdl (pa : Karp.Drift.Ann) (ss : List Karp.Req.Sel) (itCheck : Bool) : Option String :=
+        if Karp.Drift.staticDrifted pa { hash := l.hash, version := l.version } then some Karp.Gen.C15Drift.reasonNodePoolDrifted
+        else match Karp.Drift.requirementsDrifted ss l.labels with
+          | .ok true => some Karp.Gen.C15Drift.reasonRequirementsDrifted
+          | .ok false =>
+            if itCheck && Karp.Drift.instanceTypeNotFound modelITs l.labels wellKnown reservedLabels then
+              some Karp.Gen.C15Drift.reasonInstanceTypeNotFound else none
+          | .error _ => some "panic"
+      let mFresh := if l.launched then mdl { hash := po.hash, version := po.version } sels false else none
+      let mLater := if l.launched then mdl { hash := po.hash, version := po.version } sels true else none
+      -- after a successful instance-type check the result is cached; a claim that was drifted at `later` has no cache entry
+      let mAfter := if l.launched then mdl { hash := po.hashAfter, version := po.versionAfter } selsAfter l.later.isSome else none
+      if modelBad.isNone then
+        if mFresh != l.fresh then modelBad := some s!"claim {l.claim} option {l.option}: fresh: model {mFresh}, implementation {l.fresh}"
+        else if mLater != l.later then modelBad := some s!"claim {l.claim} option {l.option}: later: model {mLater}, implementation {l.later}"
+        else if edit.isSome && mAfter != l.afterEdit then modelBad := some s!"claim {l.claim} option {l.option}: after edit: model {mAfter}, implementation {l.afterEdit}"
+      -- the specification
+      if verdict.isNone then
+        if !l.launched then verdict := some (s!"claim {l.claim} option {l.option} was not launched", "error")
+        else if l.hash.isNone || l.hash != po.hash || l.version != some Karp.Drift.currentVersion then
+          verdict := some (s!"claim {l.claim} of {l.pool} does not carry its NodePool's hash and the current hash version (claim {l.hash}/{l.version}, pool {po.hash}/{po.version})", "claim-not-stamped")
+        else if l.fresh.isSome || l.later.isSome then
+          verdict := some (s!"claim {l.claim} of {l.pool}, freshly created and launched as the permitted option {l.option}, is reported Drifted ({(l.fresh.or l.later).getD ""})",
+            selfDriftClass pool sels l.labels l.reqs)
+        else if edit.isSome then
+          let f : Facts := { launched := true, poolHash := po.hashAfter, poolVersion := po.versionAfter, claimHash := l.hash,
+                             claimVersion := l.version, sels := selsAfter, labels := l.labels,
+                             instanceGone := instanceGone its l.labels resLabel, providerDrift := false }
+          -- "stop satisfying": the labels satisfied the requirements before the edit and do not satisfy them after it
+          let stopped := readable sels l.labels && readable selsAfter l.labels && labelsSatisfy sels l.labels && !labelsSatisfy selsAfter l.labels
+          let hashDiff := hashDiffersUnderSameVersion f.poolHash f.poolVersion f.claimHash f.claimVersion
+          if (hashDiff || stopped) && l.afterEdit.isNone then
+            verdict := some (s!"after the edit ({editKind}) of {editPool}: claim {l.claim} ({l.option}) of {l.pool} must be reported Drifted but is not",
+              if hashDiff then "static-drift-missed" else missClass selsAfter l.labels)
+          else if l.afterEdit.isSome && !mayBeDrifted f then
+            verdict := some (s!"after the edit ({editKind}) of {editPool}: claim {l.claim} ({l.option}) of {l.pool} is reported Drifted ({l.afterEdit.getD ""}) without a cause", "self-inflicted-drift")
+    | _, _ => if verdict.isNone then verdict := some (s!"claim {l.claim}: unknown pool {l.pool}", "harness")
+  -- the edit and the hash annotation
+  if verdict.isNone then
+    for po in pools do
+      if verdict.isNone then
+        if po.hash.isNone || po.version != some Karp.Drift.currentVersion then
+          verdict := some (s!"NodePool {po.name} carries no hash / current hash version after the hash controller ran", "hash-annotation")
+        else if edit.isSome && po.name == editPool && hashedKinds.contains editKind && po.hashAfter == po.hash then
+          verdict := some (s!"the {editKind} edit of {po.name}'s template did not change its hash", "hashed-edit-missed")
+        else if edit.isSome && !(po.name == editPool && hashedKinds.contains editKind) && po.hashAfter != po.hash then
+          verdict := some (s!"the hash of {po.name} changed although no drift-relevant field was edited ({editKind} on {editPool})", "hash-changed-by-ignored-edit")
+  let allowed := modelBad.isNone
+  match verdict with
+  | none => pure { allowed := some allowed, spec := some true, why := modelBad.getD "" }
+  | some (why, cls) =>
+    pure { allowed := some allowed, spec := some false, why := why ++ s!" [{cls}]", extra := some (jObj [("signature", jStr cls)]) }
+
+def handle : Handler := fun op inp impl =>
+  match op with
+  | "c15.hash" => hashOp inp impl
+  | "c15.drift" => driftOp inp impl
+  | "c15.selfdrift" => selfOp inp impl
+  | _ => .error s!"unknown op {op}"
 
 end Karp.Driver.C15
